@@ -118,7 +118,8 @@ def LaunchSt (P : Program) (s : St) (tk : Task) : Frame → Prop
 /-- every task, by name and frame stack -/
 inductive TaskOK (P : Program) (depth : Node → Nat) (s : St) : Task → Prop
   | callerStart (tk : Task) : tk.name = .caller → tk.frames = [.mgrStart] → (∃ rv, tk.st = .runnable rv) →
-      s.tasks.length = 1 → TaskOK P depth s tk
+      s.tasks.length = 1 → (∀ n, s.proc n = false) → (∀ n, s.evSet n = false) → (∀ S, s.sw S = none) →
+      TaskOK P depth s tk
   | callerWait (tk : Task) : tk.name = .caller → tk.frames = [.mgrWait] →
       ((∃ rv, tk.st = .runnable rv) ∨
        (tk.st = .blocked (.cond .run) ∧ taskErrors s = [] ∧ s.res P.g.output = none)) →
